@@ -43,4 +43,14 @@ VARIANTS = [
 '''),
     dict(name="twin: restore_ind pops through a local", kind="twin", file=CORE,
          old="        tree.multiplicity //= si.size", new="        tree.multiplicity = tree.multiplicity // si.size"),
+    dict(name="round2: chunk keyed by chunk number", kind="break", file=CORE,
+         old="for ix, x in self.slice_key(o * stepsize).items()", new="for ix, x in self.slice_key(o).items()",
+         expect=("C06-CHUNKKEY", "gen_output_chunks")),
+    dict(name="round2: chunks divided instead of multiplied", kind="break", file=CORE,
+         old="k: mi * 10 ** (ei - emax) for k, (mi, ei)", new="k: mi / 10 ** (ei - emax) for k, (mi, ei)",
+         expect=("C06-COMBINE", "gather_slices")),
+    dict(name="twin: start hoisted into a local", kind="twin",
+         edits=[(CORE, "            chunk = self.contract_slice(arrays, o * stepsize, **contract_opts)\n",
+                 "            start = o * stepsize\n            chunk = self.contract_slice(arrays, start, **contract_opts)\n"),
+                (CORE, "for ix, x in self.slice_key(o * stepsize).items()", "for ix, x in self.slice_key(start).items()")]),
 ]
